@@ -72,5 +72,71 @@ mod verif_inflate_mod {
         kani::cover!(LAST_STATUS.load(Relaxed) == TINFLStatus::Done as i8 as usize && total == limit && limit > 0, "COV:vec.exact_fit");
     }
 
+    // ------------------------------------------------------------------
+    // decompress_slice_iter_to_slice: the decoder is driven once per input slice. EVERY call (not just the first) must
+    // carry the caller's format/checksum choice -- the decoder consults the zlib flag again when it leaves the last
+    // block and when it compares the trailer -- and "more input follows" exactly when another slice follows.
+    // ------------------------------------------------------------------
+    static IT_N: AtomicUsize = AtomicUsize::new(0);
+    static IT_FLAGS: [AtomicUsize; 3] = [AtomicUsize::new(0), AtomicUsize::new(0), AtomicUsize::new(0)];
+    static IT_POS: [AtomicUsize; 3] = [AtomicUsize::new(0), AtomicUsize::new(0), AtomicUsize::new(0)];
+    static IT_LEN: [AtomicUsize; 3] = [AtomicUsize::new(0), AtomicUsize::new(0), AtomicUsize::new(0)];
+    static IT_OUT: AtomicUsize = AtomicUsize::new(0);
+    static IT_LAST: AtomicUsize = AtomicUsize::new(99);
+    fn model_decompress_iter(r: &mut DecompressorOxide, in_buf: &[u8], out: &mut [u8], out_pos: usize, flags: u32) -> (TINFLStatus, usize, usize) {
+        let n = IT_N.fetch_add(1, Relaxed);
+        assert!(n < 3, "OBL:sliceiter.at_most_one_call_per_slice [C07]");
+        assert!(out_pos <= out.len() && out_pos == IT_OUT.load(Relaxed), "OBL:sliceiter.output_continues_where_the_previous_slice_stopped [C07 C08]");
+        IT_FLAGS[n].store(flags as usize, Relaxed); IT_POS[n].store(out_pos, Relaxed); IT_LEN[n].store(in_buf.len(), Relaxed);
+        let st = any_status();
+        let c: usize = kani::any();
+        let w: usize = kani::any();
+        kani::assume(c <= in_buf.len() && w <= out.len() - out_pos);
+        if flags & inflate_flags::TINFL_FLAG_HAS_MORE_INPUT == 0 { kani::assume(st != TINFLStatus::NeedsMoreInput); }
+        if st == TINFLStatus::NeedsMoreInput { kani::assume(c == in_buf.len()); }
+        IT_OUT.fetch_add(w, Relaxed);
+        IT_LAST.store(st as i8 as usize, Relaxed);
+        (st, c, w)
+    }
+    #[kani::proof]
+    #[kani::stub(decompress, model_decompress_iter)]
+    #[kani::unwind(6)]
+    fn k_decompress_slice_iter() {
+        use inflate_flags::*;
+        let data: [u8; 6] = kani::any();
+        let (a, b): (usize, usize) = (kani::any(), kani::any());
+        kani::assume(a <= b && b <= 6);
+        let nslices: usize = kani::any();
+        kani::assume(nslices <= 3);
+        let slices: [&[u8]; 3] = [&data[..a], &data[a..b], &data[b..]];
+        let zlib: bool = kani::any();
+        let ignore: bool = kani::any();
+        let mut out = [0u8; 8];
+        let r = decompress_slice_iter_to_slice(&mut out[..], slices[..nslices].iter().copied(), zlib, ignore);
+        let n = IT_N.load(Relaxed);
+        let mut i = 0;
+        while i < 3 {
+            if i < n {
+                let f = IT_FLAGS[i].load(Relaxed) as u32;
+                assert!((f & TINFL_FLAG_PARSE_ZLIB_HEADER != 0) == zlib, "OBL:sliceiter.every_call_carries_the_zlib_choice [C09 C07]");
+                assert!((f & TINFL_FLAG_IGNORE_ADLER32 != 0) == ignore, "OBL:sliceiter.every_call_carries_the_checksum_choice [C09 C16]");
+                assert!(f & TINFL_FLAG_USING_NON_WRAPPING_OUTPUT_BUF != 0, "OBL:sliceiter.output_is_flat [C03 C08]");
+                assert!((f & TINFL_FLAG_HAS_MORE_INPUT != 0) == (i + 1 < nslices), "OBL:sliceiter.more_input_announced_iff_another_slice_follows [C04 C07]");
+                assert!(IT_LEN[i].load(Relaxed) == slices[i].len(), "OBL:sliceiter.slices_offered_in_order_and_whole [C07]");
+            }
+            i += 1;
+        }
+        match r {
+            Ok(len) => assert!(IT_LAST.load(Relaxed) == TINFLStatus::Done as i8 as usize && len == IT_OUT.load(Relaxed), "OBL:sliceiter.ok_only_when_done_with_the_total_length [C03 C04 C09]"),
+            Err(e) => {
+                assert!(e != TINFLStatus::Done, "OBL:sliceiter.error_is_never_done [C04]");
+                if n == 0 { assert!(e == TINFLStatus::FailedCannotMakeProgress, "OBL:sliceiter.no_slices_at_all_is_cannot_make_progress [C04]"); }
+                else { assert!(e as i8 as usize == IT_LAST.load(Relaxed), "OBL:sliceiter.error_is_the_decoder_status [C04 C09]"); }
+            }
+        }
+        kani::cover!(n == 3 && r.is_ok(), "COV:sliceiter.three_slices_done");
+        kani::cover!(n == 2 && zlib, "COV:sliceiter.two_slices_zlib");
+    }
+
     //@PLAYBACK@
 }
